@@ -21,7 +21,7 @@ from __future__ import annotations
 import numpy as np
 
 import porepy as pp
-from engines.history import Observer, Op, run_history
+from engines.history import Keeper, Observer, Op, run_history
 from simkit.runner import Workload
 from simkit.trace import Trace, Violation
 
@@ -39,7 +39,7 @@ ASSUMPTIONS = [
     "writes go to index 0 (plus the model's initialisation write to all indices of a fresh slot), as in the statement",
     "values are small integers stored as floats: additive results are exact, comparison is bitwise",
 ]
-PROBES = ["observation_sparse", "observation_end", "zero_increment", "caller_edits_returned_variable_list", "interface_variable_same_name", "interface_variable", "depth_changed_during_run", "shift_none_grows", "shift_on_empty", "additive_after_shift", "alias_probe_get", "alias_probe_set",
+PROBES = ["observation_sparse", "observation_end", "result_kept_by_caller", "zero_increment", "caller_edits_returned_variable_list", "interface_variable_same_name", "interface_variable", "depth_changed_during_run", "shift_none_grows", "shift_on_empty", "additive_after_shift", "alias_probe_get", "alias_probe_set",
           "rejected_additive_empty", "rejected_negative_index", "rejected_no_index", "rejected_two_indices_get", "rejected_get_beyond_depth",
           "rejected_shift_negative", "rejected_shift_location", "set_both_locations", "integer_dtype_value", "depth_ge3_filled", "init_all_indices", "depth3_window_filled"]
 
@@ -134,8 +134,10 @@ def run_helpers(ch, tr: Trace) -> None:
         return d
 
     obs = Observer(ch, tr)
+    keeper = Keeper(lambda label, where: Violation("reads_return_copies", f"the array returned by {label} changed under the caller's hands during {where}", "returned_array_changed_later"))
 
     def check_all(where, force=False):
+        keeper.verify(where)
         if not (force or obs.due()):
             return
         for (loc, nm), w in model.items():
@@ -243,8 +245,12 @@ def run_helpers(ch, tr: Trace) -> None:
             return
         i = ch.draw(w.n)
         got = pp.get_solution_values(nm, data, **kw(loc, i))
-        got += 777  # mutate the returned array
-        tr.probe("alias_probe_get")
+        if ch.flag():
+            got += 777  # mutate the returned array
+            tr.probe("alias_probe_get")
+        else:
+            keeper.keep(got, f"get({nm}, {loc}, {i})")  # the caller holds on to what it read: later writes and shifts must not alter it
+            tr.probe("result_kept_by_caller")
         tr.op("get_mutate", "ok", nm, loc, i, changing=False)
         check_all(f"mutating the array returned by get({nm}, {loc}, {i})")
 
@@ -359,8 +365,10 @@ def run_eqsys(ch, tr: Trace) -> None:
         return list(sub), sub
 
     obs = Observer(ch, tr)
+    keeper = Keeper(lambda label, where: Violation("reads_return_copies", f"the array returned by {label} changed under the caller's hands during {where}", "returned_array_changed_later"))
 
     def check_all(where, force=False):
+        keeper.verify(where)
         if not (force or obs.due()):
             return
         for loc in LOCS:
@@ -452,8 +460,12 @@ def run_eqsys(ch, tr: Trace) -> None:
             return
         i = ch.draw(n)
         got = es.get_variable_values(None, **kw(loc, i))
-        got += 555
-        tr.probe("alias_probe_get")
+        if ch.flag():
+            got += 555
+            tr.probe("alias_probe_get")
+        else:
+            keeper.keep(got, f"get_variable_values({loc}, {i})")
+            tr.probe("result_kept_by_caller")
         tr.op("get_mutate", "ok", loc, i, changing=False)
         check_all("mutating the array returned by get_variable_values")
 
